@@ -170,6 +170,20 @@ func main() {
 			default:
 				runC08s(e, idx, c)
 			}
+		case "C11", "C12":
+			var c *FormCase
+			if desc != "" {
+				c = &FormCase{}
+				mustJSON(desc, c)
+				c.F.norm()
+			} else {
+				c = genC11(r, idx, *tier, *prop == "C12")
+			}
+			if *prop == "C11" {
+				runC11(e, idx, c)
+			} else {
+				runC12(e, idx, c)
+			}
 		default:
 			fmt.Fprintln(os.Stderr, "unknown property", *prop)
 			os.Exit(2)
